@@ -1,11 +1,17 @@
 package c05
 
 import (
+	"crypto/x509"
+	"crypto/x509/pkix"
+	"encoding/pem"
 	"errors"
 	"fmt"
 	"net/http"
+	"os"
+	"path/filepath"
 	"reflect"
 	"strings"
+	"time"
 
 	"github.com/dadrus/heimdall/internal/cache"
 	"github.com/dadrus/heimdall/internal/cache/memory"
@@ -249,6 +255,8 @@ var keySetKinds = []struct {
 	{"cert-untrusted-not-validated", false, true},
 	{"cert-no-signature-usage", false, true},
 	{"cert-system-store", false, true},
+	// the trust store holds the signer's own (self-signed, not a CA) certificate: the key is pinned
+	{"cert-pinned-leaf", true, true},
 }
 
 type creationCtx struct{ authenticators.CreationContext }
@@ -379,13 +387,30 @@ func newRuntime(sc Scenario) (*runtime, error) {
 			usable = 1
 			protoConf["trust_store"] = p.trustStore
 			protoConf["validate_jwk"] = false
+		case "pinned-leaf":
+			usable = 1
+			pinned := p.cert(&x509.Certificate{
+				Subject: pkix.Name{CommonName: "c05 pinned signer"}, NotBefore: env.T0.Add(-365 * 24 * time.Hour),
+				NotAfter: env.T0.Add(365 * 24 * time.Hour), KeyUsage: x509.KeyUsageDigitalSignature,
+			}, nil, rt.a.Pub, rt.a)
+
+			file := filepath.Join(p.dir, "pinned-"+rt.a.Name+".pem")
+			if err := os.WriteFile(file, pem.EncodeToMemory(&pem.Block{Type: "CERTIFICATE", Bytes: pinned.Raw}), 0o600); err != nil {
+				return nil, err
+			}
+
+			protoConf["trust_store"] = file
+
+			add(rt.a, "k1", sc.Alg, [][]byte{pinned.Raw}, usable)
 		case "system-store":
 			// no trust store configured: the system roots apply, which do not contain the fixture root
 		default:
 			protoConf["trust_store"] = p.trustStore
 		}
 
-		add(rt.a, "k1", sc.Alg, p.leafChain(ck, rt.a.Pub), usable)
+		if ck != "pinned-leaf" {
+			add(rt.a, "k1", sc.Alg, p.leafChain(ck, rt.a.Pub), usable)
+		}
 	}
 
 	rt.jwksBody = string(mustJSON(map[string]any{"keys": rt.servedJWK}))
